@@ -82,6 +82,8 @@ static int nnew = 0;
 static long nconf_events = 0; /* conflicting access events (in filter or not) */
 
 static int barrier_count = 0, crit_owner = -1;
+static int nrg, blk_overflow;
+static unsigned char *kernel_top;
 #define MAXDYN 64
 static struct {
     long next, end, incr, chunk;
@@ -131,6 +133,9 @@ void vrt_reset(void) {
     nregions = 0;
     wt_used = 0;
     wt_overflow = 0;
+    nrg = 0;
+    kernel_top = NULL;
+    blk_overflow = 0;
     epoch++;
     phase = 0;
     if (!pt_nen) {
@@ -168,6 +173,60 @@ void vrt_get_acc(uintptr_t *addr, unsigned char *sz, unsigned char *w, unsigned 
 int vrt_nnew(void) { return nnew; }
 void vrt_get_new(uintptr_t *out) { memcpy(out, newconf, nnew * sizeof(uintptr_t)); }
 long vrt_words_touched(void) { return wt_used; }
+
+
+/* ---- region-boundary state hashing (for pruning equivalent continuations) ------------------
+ * At every GOMP_parallel entry made by the master all logical threads of earlier regions are
+ * dead, so the future of the execution is a function of memory only: the argument buffers the
+ * driver registered, heap blocks the kernel allocated (malloc/calloc/realloc are redirected here
+ * when the kernels are compiled for vrt) and the master's stack between this call and the frame
+ * of the kernel entry function.  Hashing more than needed only costs merging, never soundness. */
+#define MAXBUF 32
+static struct { const unsigned char *p; size_t n; } regbuf[MAXBUF];
+static int nregbuf = 0;
+void vrt_register_clear(void) { nregbuf = 0; }
+void vrt_register(const void *p, size_t n) { if (nregbuf < MAXBUF) { regbuf[nregbuf].p = p; regbuf[nregbuf].n = n; nregbuf++; } }
+#define MAXBLK 256
+static struct { unsigned char *p; size_t n; } blk[MAXBLK];
+static int nblk = 0;
+static void blk_add(void *p, size_t n) { if (!p) return; if (nblk < MAXBLK) { blk[nblk].p = p; blk[nblk].n = n; nblk++; } else blk_overflow = 1; }
+static void blk_del(void *p) { for (int i = 0; i < nblk; i++) if (blk[i].p == p) { blk[i] = blk[nblk - 1]; nblk--; return; } }
+void *vrt_malloc(size_t n) { void *p = calloc(1, n ? n : 1); blk_add(p, n); return p; } /* zero-filled: deterministic */
+void *vrt_calloc(size_t a, size_t b) { void *p = calloc(a ? a : 1, b ? b : 1); blk_add(p, a * b); return p; }
+void *vrt_realloc(void *q, size_t n) {
+    size_t old = 0;
+    for (int i = 0; i < nblk; i++) if (blk[i].p == q) old = blk[i].n;
+    void *p = calloc(1, n ? n : 1);
+    if (q) { memcpy(p, q, old < n ? old : n); blk_del(q); free(q); }
+    blk_add(p, n);
+    return p;
+}
+void vrt_free(void *p) { if (p) { blk_del(p); free(p); } }
+int vrt_live_blocks(void) { return nblk; }
+
+#define MAXRG 64
+static int rg_point[MAXRG];
+static uint64_t rg_hash[MAXRG];
+static inline uint64_t hmix(uint64_t h, const unsigned char *p, size_t n) {
+    size_t i = 0;
+    for (; i + 8 <= n; i += 8) { uint64_t v; memcpy(&v, p + i, 8); h = (h ^ v) * 0x100000001b3ull; h ^= h >> 29; }
+    for (; i < n; i++) { h = (h ^ p[i]) * 0x100000001b3ull; }
+    return h;
+}
+static void record_region_state(unsigned char *sp_lo, void *fn) {
+    if (nrg >= MAXRG) return;
+    uint64_t h = 0xcbf29ce484222325ull ^ (uint64_t)(uintptr_t)fn;
+    for (int i = 0; i < nregbuf; i++) h = hmix(h, regbuf[i].p, regbuf[i].n);
+    for (int i = 0; i < nblk; i++) { h = hmix(h, (unsigned char *)&blk[i].n, sizeof(size_t)); h = hmix(h, blk[i].p, blk[i].n); }
+    if (kernel_top && sp_lo && kernel_top > sp_lo && (size_t)(kernel_top - sp_lo) < (1u << 20)) h = hmix(h, sp_lo, (size_t)(kernel_top - sp_lo));
+    else h ^= 0x5bd1e995u * (uint64_t)(nrg + 1) + (uint64_t)npoints * 0x9E3779B97F4A7C15ull; /* unknown stack: never merge */
+    if (blk_overflow) h ^= (uint64_t)npoints * 0x9E3779B97F4A7C15ull + 1;
+    rg_point[nrg] = npoints;
+    rg_hash[nrg] = h;
+    nrg++;
+}
+int vrt_nrg(void) { return nrg; }
+void vrt_get_rg(int *pts, uint64_t *hs) { memcpy(pts, rg_point, nrg * sizeof(int)); memcpy(hs, rg_hash, nrg * sizeof(uint64_t)); }
 
 static int enabled(int t) {
     if (T[t].state == ST_RUN) return 1;
@@ -287,7 +346,9 @@ static void access_hook(void *p, int sz, int w) {
     for (uintptr_t ww = w0; ww <= w1; ww++) note_access(ww, w);
 }
 void __tsan_init(void) {}
-void __tsan_func_entry(void *pc) { (void)pc; }
+void __tsan_func_entry(void *pc) {
+    (void)pc;
+}
 void __tsan_func_exit(void) {}
 void __tsan_read1(void *p) { access_hook(p, 1, 0); }
 void __tsan_read2(void *p) { access_hook(p, 2, 0); }
@@ -375,6 +436,7 @@ void GOMP_parallel(void (*fn)(void *), void *data, unsigned num_threads, unsigne
         return;
     }
     nregions++;
+    record_region_state((unsigned char *)__builtin_frame_address(0) + 16, (void *)fn);
     nthr = num_threads ? (int)num_threads : nthr_cfg;
     if (nthr > MAXT) nthr = MAXT;
     if (nthr < 1) nthr = 1;
@@ -490,3 +552,33 @@ _Bool GOMP_loop_dynamic_start(long s, long e, long i, long c, long *is, long *ie
 _Bool GOMP_loop_dynamic_next(long *is, long *ie) { return GOMP_loop_nonmonotonic_dynamic_next(is, ie); }
 void GOMP_loop_end_nowait(void) {}
 void GOMP_loop_end(void) { GOMP_barrier(); }
+void __tsan_atomic_thread_fence(int mo) { (void)mo; }
+void __tsan_atomic_signal_fence(int mo) { (void)mo; }
+
+/* ---- trampoline: call a kernel with a scrubbed stack below a known top ----------------------
+ * SysV x86-64: integer-class args go to rdi..r9 in order, sse-class args to xmm0..7 in order,
+ * further integer args to the stack in order; so one generic prototype serves every kernel with
+ * <= 12 integer/pointer and <= 8 float/double arguments.  (A C `float` argument is passed by
+ * putting its 32 bits into the low half of the double slot; the driver does that.)
+ * The scrub makes never-initialised slots of the kernel's frame deterministic (zero). */
+typedef long (*gen_i)(long, long, long, long, long, long, double, double, double, double, double, double, double, double,
+                      long, long, long, long, long, long);
+typedef double (*gen_d)(long, long, long, long, long, long, double, double, double, double, double, double, double, double,
+                        long, long, long, long, long, long);
+static void __attribute__((noinline)) scrub(void) {
+    volatile unsigned char pad[192 * 1024];
+    memset((void *)pad, 0, sizeof(pad));
+    __asm__ volatile("" ::"r"(pad) : "memory");
+}
+long __attribute__((noinline)) vrt_calli(void *fn, long *a, double *d) {
+    scrub();
+    kernel_top = (unsigned char *)__builtin_frame_address(0);
+    return ((gen_i)fn)(a[0], a[1], a[2], a[3], a[4], a[5], d[0], d[1], d[2], d[3], d[4], d[5], d[6], d[7], a[6], a[7], a[8],
+                       a[9], a[10], a[11]);
+}
+double __attribute__((noinline)) vrt_calld(void *fn, long *a, double *d) {
+    scrub();
+    kernel_top = (unsigned char *)__builtin_frame_address(0);
+    return ((gen_d)fn)(a[0], a[1], a[2], a[3], a[4], a[5], d[0], d[1], d[2], d[3], d[4], d[5], d[6], d[7], a[6], a[7], a[8],
+                       a[9], a[10], a[11]);
+}
